@@ -91,6 +91,10 @@ impl Inner {
             }
         }
 
+        #[cfg(metrics_verif)]
+        while matches!(self.distributions.try_read(), Err(std::sync::TryLockError::WouldBlock)) {
+            metrics::verif::point("spin:prom.dist.lock");
+        }
         let distributions =
             self.distributions.read().unwrap_or_else(PoisonError::into_inner).clone();
 
@@ -103,6 +107,10 @@ impl Inner {
         for (key, histogram) in histogram_handles {
             let (name, labels) = key_to_parts(&key, Some(&self.global_labels));
 
+            #[cfg(metrics_verif)]
+            while matches!(self.distributions.try_write(), Err(std::sync::TryLockError::WouldBlock)) {
+                metrics::verif::point("spin:prom.dist.lock");
+            }
             let mut wg = self.distributions.write().unwrap_or_else(PoisonError::into_inner);
             let entry = wg
                 .entry(name.clone())
